@@ -57,6 +57,299 @@ C17_SAMPLE = dict(
             ("thin must be set", 5), ("model must be one of", 6)],
 )
 
+# ---- C10: batchie.core.ThetaHolder.  A holder object is a value (class id, attribute values) of type pyobj (Model/Thetas.v).
+_OBJ, _THETA = "(pyobj P S)", "(theta P S)"
+_C10 = dict(
+    file="src/batchie/core.py", cls="ThetaHolder", out="SrcThetas.v", imports="Model.Thetas",
+    # the two instance attributes (set in __init__) are the two fields of the model's holder
+    fields={"thetas": (_OBJ, "list " + _THETA, "attr_thetas {obj}", "set_attr_thetas {obj} {val}"),
+            "_n_thetas": (_OBJ, "Z", "attr_n_thetas {obj}", "set_attr_n_thetas {obj} {val}")},
+)
+_LEN = ("len(__l)", "Z.of_nat (length {l})", "Z")
+# property access h.n_thetas runs the translated property ThetaHolder.n_thetas
+_N_THETAS = ("__h.n_thetas", "!src_n_thetas P S {h}", "Z", {"h": _OBJ})
+# ThetaHolder(n): a new instance of class 0 (ThetaHolder itself) initialised by the translated __init__
+_NEW_HOLDER = "!src_init P S (py_blank 0) {n}"
+_TYPE_NE = ("type(__a) != type(__b)", "negb (py_class {a} =? py_class {b})", "bool", {"a": _OBJ, "b": _OBJ})
+
+C10_INIT = dict(
+    _C10, func="__init__", name="src_init", pyparams=["self", "n_thetas"],     # (*args, **kwargs are not read)
+    params=[("P", "Type"), ("S", "Type"), ("self", _OBJ), ("n_thetas", "Z")], returns=_OBJ, vars={},
+    implicit_return="{self}",
+)
+C10_N_THETAS = dict(
+    _C10, func="n_thetas", name="src_n_thetas", pyparams=["self"],
+    params=[("P", "Type"), ("S", "Type"), ("self", _OBJ)], returns="Z", vars={},
+)
+C10_GET = dict(
+    _C10, func="get_theta", name="src_get_theta", pyparams=["self", "step_index"],
+    params=[("P", "Type"), ("S", "Type"), ("self", _OBJ), ("step_index", "Z")], returns=_THETA, vars={},
+    prims=[_LEN, ("__l[__i]", "!list_get {l} {i}", _THETA, {"l": "list " + _THETA, "i": "Z"})],
+    raises=[("step_index out of bounds", 2)],
+)
+C10_ADD = dict(
+    _C10, func="add_theta", name="src_add_theta", pyparams=["self", "theta"],
+    params=[("P", "Type"), ("S", "Type"), ("self", _OBJ), ("theta", _THETA)], returns=_OBJ, vars={},
+    prims=[_LEN, _N_THETAS],
+    raises=[("Cannot add more samples to the results object", 1)],
+    implicit_return="{self}",
+)
+C10_IS_COMPLETE = dict(
+    _C10, func="is_complete", name="src_is_complete", pyparams=["self"],
+    params=[("P", "Type"), ("S", "Type"), ("self", _OBJ)], returns="bool", vars={},
+    prims=[_LEN, _N_THETAS],
+)
+C10_COMBINE = dict(
+    _C10, func="combine", name="src_combine", pyparams=["self", "other"],
+    params=[("P", "Type"), ("S", "Type"), ("self", _OBJ), ("other", _OBJ)], returns=_OBJ,
+    vars={"n_thetas": "Z", "result": _OBJ},
+    prims=[_TYPE_NE, _N_THETAS,
+           ("ThetaHolder(__n)", _NEW_HOLDER, _OBJ, {"n": "Z"})],
+    raises=[("Cannot combine with different type", 6)],
+)
+C10_CONCAT = dict(
+    _C10, func="concat", name="src_concat", pyparams=["cls", "instances"], unused_params=["cls"],
+    params=[("P", "Type"), ("S", "Type"), ("instances", "list " + _OBJ)], returns=_OBJ,
+    vars={"first": _OBJ, "instance": _OBJ},
+    prims=[_LEN, _TYPE_NE,
+           ("__l[1:]", "tl {l}", "list " + _OBJ, {"l": "list " + _OBJ}),
+           ("__l[__i]", "!list_get {l} {i}", _OBJ, {"l": "list " + _OBJ, "i": "Z"}),
+           # a.combine(b) runs the translated method ThetaHolder.combine
+           ("__a.combine(__b)", "!src_combine P S {a} {b}", _OBJ, {"a": _OBJ, "b": _OBJ})],
+    raises=[("Cannot concatenate an empty list of ThetaHolder", 3), ("Cannot concatenate different types of ThetaHolder", 7)],
+)
+
+_FILE = "(file P S)"
+# "read an HDF5 group into a dict" (attributes first, then every dataset): the group's content IS that dict in the model
+_READ_SHARED = """
+shared_params = {}
+shared_grp = __f['shared_params']
+shared_params.update(shared_grp.attrs.items())
+for key in shared_grp.keys():
+    shared_params[key] = shared_grp[key][:]
+"""
+_READ_PRIVATE = """
+private_params = {}
+private_params.update(__g.attrs.items())
+for key in __g.keys():
+    private_params[key] = __g[key][:]
+"""
+C10_LOAD = dict(
+    _C10, func="load_h5", name="src_load_h5", pyparams=["path"],
+    params=[("P", "Type"), ("S", "Type"), ("h5", _FILE)], returns=_OBJ,     # h5 = what the file at `path` holds
+    vars={"f": _FILE, "n_thetas": "Z", "result": _OBJ, "theta_class": "sample_class", "theta_module": "sample_class",
+          "ThetaClass": "sample_class", "shared_params": "S", "private_grp": "(h5groups P)", "theta_keys": "list h5name",
+          "theta_key": "h5name", "i_grp": "P", "private_params": "P", "theta": _THETA},
+    contexts=[("h5py.File(path, 'r')", "h5", _FILE)],
+    prims=[("__f.attrs['n_thetas']", "f_n {f}", "Z", {"f": _FILE}),
+           ("__f.attrs['theta_class']", "tt", "sample_class", {"f": _FILE}),
+           ("__f.attrs['theta_module']", "tt", "sample_class", {"f": _FILE}),
+           ("getattr(importlib.import_module(__m), __c)", "tt", "sample_class", {"m": "sample_class", "c": "sample_class"}),
+           ("ThetaHolder(n_thetas=__n)", _NEW_HOLDER, _OBJ, {"n": "Z"}),
+           ("__f['private_params']", "f_groups {f}", "(h5groups P)", {"f": _FILE}),
+           ("sorted(list(__g.keys()), key=int)", "sorted_by_int (group_names {g})", "list h5name", {"g": "(h5groups P)"}),
+           ("__g[__k]", "!group_member {g} {k}", "P", {"g": "(h5groups P)", "k": "h5name"}),
+           # from_dicts rebuilds the sample from its two dicts: a sample IS the pair in the model
+           ("__c.from_dicts(private_params=__p, shared_params=__s)", "({p}, {s})", _THETA, {"c": "sample_class", "p": "P", "s": "S"})],
+    stmt_prims=[(_READ_SHARED, "shared_params", "f_shared {f}", "S", {"f": _FILE}),
+                (_READ_PRIVATE, "private_params", "{g}", "P", {"g": "P"})],
+    # result.add_theta(t) runs the translated method add_theta on the local object
+    effects=[("result.add_theta(__t)", "result'", "!src_add_theta P S {state} {t}")],
+)
+
+_H5W = "(h5w P S)"
+# "write a dict into an HDF5 group" (arrays as datasets, scalars as attributes)
+_WRITE_SHARED = """
+shared_grp = f.create_group('shared_params')
+for key, val in __d.items():
+    if isinstance(val, ArrayType):
+        shared_grp.create_dataset(key, data=val, compression='gzip')
+    else:
+        shared_grp.attrs.create(key, val)
+"""
+_WRITE_PRIVATE = """
+i_grp = private_grp.create_group(str(__i))
+private_params = __t.private_parameters_dict()
+for key, val in private_params.items():
+    if isinstance(val, ArrayType):
+        i_grp.create_dataset(key, data=val, compression='gzip')
+    else:
+        i_grp.attrs.create(key, val)
+"""
+C10_SAVE = dict(
+    _C10, func="save_h5", name="src_save_h5", pyparams=["self", "fn"],
+    params=[("P", "Type"), ("S", "Type"), ("self", _OBJ)], returns=_H5W,       # returns what has been written to `fn`
+    vars={"shared_params": "S", "theta_class": "sample_class", "theta_module": "sample_class", "f": _H5W,
+          "private_grp": "h5handle", "i": "Z", "theta": _THETA},
+    contexts=[("h5py.File(fn, 'w')", "h5_new", _H5W)],
+    prims=[_LEN, _N_THETAS,
+           ("__t.shared_parameters_dict()", "snd {t}", "S", {"t": _THETA}),     # a sample IS the pair (private, shared)
+           ("__t.__class__.__name__", "tt", "sample_class", {"t": _THETA}),
+           ("__t.__class__.__module__", "tt", "sample_class", {"t": _THETA}),
+           ("__l[__i]", "!list_get {l} {i}", _THETA, {"l": "list " + _THETA, "i": "Z"})],
+    effects=[("f.attrs.create('n_thetas', __v)", "f'", "h5_set_n {state} {v}"),
+             ("f.attrs.create('theta_class', __c)", "f'", "{state}"),            # the sample class is not modelled
+             ("f.attrs.create('theta_module', __c)", "f'", "{state}")],
+    effect_calls=[("f.create_group('private_params')", "f'", "h5_create_private {state}", "tt", "h5handle")],
+    # str(i) of a non-negative int is its decimal string; private_parameters_dict() is the first component of the pair
+    stmt_prims=[(_WRITE_SHARED, "f", "h5_write_shared f' {d}", _H5W, {"d": "S"}),
+                (_WRITE_PRIVATE, "f", "h5_add_group f' (key_of_index (Z.to_nat {i})) (fst {t})", _H5W, {"i": "Z", "t": _THETA})],
+    globals=["isinstance", "ArrayType", "str"],
+    raises=[("Cannot save an empty ThetaHolder", 4)],
+    implicit_return="{f}",
+)
+
+# ---- scoring/main.py (C06 vocabulary: Model/Scores.v) ----
+# Trusted per entry: one attribute / library call each.  A Plate object is Scores.plate (its id and the (position, row)
+# pairs it selects), the Screen is the list of its rows, the ScoresHolder is Scores.holder, the policy an optional
+# function (batch plates, candidates) -> plates.
+_SCORING_PRIMS = [
+    ("np.random.default_rng()", "fresh_rng", "rng_t"),
+    ("screen.plates", "plates screen'", "list plate"),                 # [get_plate(x) for x in np.unique(plate_ids)]
+    ("__p.plate_id", "p_id {p}", "Z", {"p": "plate"}),
+    ("__p.is_observed", "is_observed {p}", "bool", {"p": "plate"}),   # np.all(observation_mask)
+    ("sorted(__l, key=lambda p: p.plate_id)", "sorted_by_id {l}", "list plate", {"l": "list plate"}),   # stable
+]
+
+C06_SELECT = dict(
+    file="src/batchie/scoring/main.py", func="select_next_plate",
+    out="SrcScoring.v", imports="Model.Scores", name="src_select_next_plate",
+    pyparams=["scores", "screen", "policy", "batch_plate_ids", "rng"],
+    params=[("scores", "holder"), ("screen", "screen"), ("policy", "opt policy_t"), ("batch_plate_ids", "opt list Z"),
+            ("rng", "opt rng_t")],
+    returns="opt plate",
+    vars={
+        "rng": "rng_t", "batch_plate_ids": "list Z",       # narrowed by the `if x is None: x = default` idiom
+        "plate": "plate", "batch_plates": "list plate", "unobserved_plates_not_already_selected": "list plate",
+        "eligible_plates": "list plate", "eligible_plate_ids": "list Z", "best_plate_id": "Z", "best_plate": "plate",
+        "best_plate_name": "nat",
+    },
+    prims=_SCORING_PRIMS + [
+        # the policy object is its filter function; rng is handed on unread
+        ("__f.filter_eligible_plates(batch_plates=__b, unobserved_plates=__u, rng=__r)", "{f} {b} {u}", "list plate",
+         {"f": "policy_t", "b": "list plate", "u": "list plate", "r": "rng_t"}),
+        ("scores.plate_id_with_minimum_score(__e)", "!min_plate scores' (Some {e})", "Z", {"e": "list Z"}),
+        ("screen.get_plate(__i)", "get_plate screen' {i}", "plate", {"i": "Z"}),     # Plate(screen, plate_ids == i)
+        ("__p.plate_name", "!plate_name {p}", "nat", {"p": "plate"}),
+    ],
+    ignore=["logger.warning(__a)", "logger.info(__a)"],
+)
+
+C06_SCORE_CHUNK = dict(
+    file="src/batchie/scoring/main.py", func="score_chunk",
+    out="SrcScoring.v", imports="Model.Scores", name="src_score_chunk",
+    pyparams=["scorer", "thetas", "screen", "distance_matrix", "rng", "progress_bar", "n_chunks", "chunk_index", "batch_plate_ids"],
+    # thetas, distance_matrix, progress_bar are only handed on to scorer.score, whose answer is an arbitrary function of the plates dict
+    params=[("scorer", "scorer_fn"), ("screen", "screen"), ("rng", "opt rng_t"), ("n_chunks", "Z"), ("chunk_index", "Z"),
+            ("batch_plate_ids", "opt list Z")],
+    returns="holder",
+    vars={
+        "rng": "rng_t", "plate": "plate", "p": "plate",
+        "unobserved_plates": "list plate", "chunk_plates": "list plate", "previously_selected_plates": "list plate",
+        "previously_selected_plates_combined": "subset", "conditioned_plate": "subset", "plates_to_score": "dict subset",
+        "scores_holder": "holder", "scores": "dict", "k": "Z", "v": "Z",
+    },
+    coerce=[("plate", "subset", "p_rows {x}")],        # a Plate is a ScreenSubset: its selection
+    prims=_SCORING_PRIMS + [
+        ("np.array_split(__l, __n)[__i].tolist()", "!array_split_at {l} {n} {i}", "list plate", {"l": "list plate", "n": "Z", "i": "Z"}),
+        ("ScreenSubset.concat(__l)", "!subset_concat screen' {l}", "subset", {"l": "list subset"}),
+        ("__p.combine(__q)", "subset_union screen' {p} {q}", "subset", {"p": "subset", "q": "subset"}),
+        ("filter_dataset_to_unique_treatments(__x)", "uniq_first [] {x}", "subset", {"x": "subset"}),
+        ("len(__d)", "Z.of_nat (length {d})", "Z"),
+        ("ChunkedScoresHolder(__n)", "holder_new (Z.to_nat {n})", "holder", {"n": "Z"}),
+        ("scorer.score(plates=__p, distance_matrix=distance_matrix, samples=thetas, rng=__r, progress_bar=progress_bar)",
+         "scorer' {p}", "dict", {"p": "dict subset", "r": "rng_t"}),
+    ],
+    effects=[("scores_holder.add_score(__k, __v)", "scores_holder'", "!add_score {state} {k} {v}")],
+    ignore=["logger.info(__a)"],
+)
+
+# ---- scoring/main.py select_next_plate once more, in the C16 vocabulary (Model/Policy.v): a Plate object is (id, sample ids),
+# `observed` its is_observed attribute, the ScoresHolder the list of its (plate id, score key) slots, the policy object
+# KPerSamplePlatePolicy(k) is k and its method the C16 model function (itself linked to the source by C16_model_is_source)
+C16_SELECT = dict(
+    file="src/batchie/scoring/main.py", func="select_next_plate",
+    out="SrcScoringPolicy.v", imports="Model.Policy", name="src_select_next_plate_k",
+    pyparams=["scores", "screen", "policy", "batch_plate_ids", "rng"],
+    params=[("observed", "plate -> bool"), ("scores", "list (Z * Z)"), ("screen", "list plate"), ("policy", "opt Z"),
+            ("batch_plate_ids", "opt list Z"), ("rng", "opt rng_t")],
+    returns="opt plate",
+    vars={
+        "rng": "rng_t", "batch_plate_ids": "list Z",       # narrowed by the `if x is None: x = default` idiom
+        "plate": "plate", "batch_plates": "list plate", "unobserved_plates_not_already_selected": "list plate",
+        "eligible_plates": "list plate", "eligible_plate_ids": "list Z", "best_plate_id": "Z", "best_plate": "plate",
+        "best_plate_name": "Z",
+    },
+    prims=[
+        ("np.random.default_rng()", "fresh_rng", "rng_t"),
+        ("screen.plates", "screen'", "list plate"),
+        ("__p.plate_id", "plate_id {p}", "Z", {"p": "plate"}),
+        ("__p.is_observed", "observed {p}", "bool", {"p": "plate"}),
+        ("sorted(__l, key=lambda p: p.plate_id)", "sort_by_id {l}", "list plate", {"l": "list plate"}),   # stable
+        ("__f.filter_eligible_plates(batch_plates=__b, unobserved_plates=__u, rng=__r)", "!filter_eligible {f} {b} {u}", "list plate",
+         {"f": "Z", "b": "list plate", "u": "list plate", "r": "rng_t"}),
+        ("scores.plate_id_with_minimum_score(__e)", "!min_score_id scores' {e}", "Z", {"e": "list Z"}),
+        ("screen.get_plate(__i)", "get_plate screen' {i}", "plate", {"i": "Z"}),
+        ("__p.plate_name", "!plate_name {p}", "Z", {"p": "plate"}),
+    ],
+    ignore=["logger.warning(__a)", "logger.info(__a)"],
+)
+
+# ---- ChunkedScoresHolder: the two numpy arrays are lists, `self` is (scores, plate_ids, current_index) ----
+_HOLDER_ATTRS = {"self.scores": "scores", "self.plate_ids": "plate_ids", "self.current_index": "current_index"}
+_HOLDER_STATE = [("scores", "list Z"), ("plate_ids", "list Z"), ("current_index", "Z")]
+
+C06_ADD_SCORE = dict(
+    file="src/batchie/scoring/main.py", cls="ChunkedScoresHolder", func="add_score",
+    out="SrcScoring.v", imports="Model.Scores", name="src_add_score",
+    pyparams=["self", "plate_id", "score"], attr_vars=_HOLDER_ATTRS,
+    params=_HOLDER_STATE + [("plate_id", "Z"), ("score", "Z")],
+    returns="(list Z * list Z * Z)", vars={}, prims=[],
+    index_error=4,                                             # a[i] = v past the end
+    implicit_return="({scores}, {plate_ids}, {current_index})",   # the state of self when the method ends
+)
+
+C06_COMBINE = dict(
+    file="src/batchie/scoring/main.py", cls="ChunkedScoresHolder", func="combine",
+    out="SrcScoring.v", imports="Model.Scores", name="src_combine",
+    pyparams=["self", "other"],
+    attr_vars=dict(_HOLDER_ATTRS, **{"other.scores": "other_scores", "other.plate_ids": "other_plate_ids"}),
+    params=_HOLDER_STATE + [("other_scores", "list Z"), ("other_plate_ids", "list Z")],
+    returns="(list Z * list Z * Z)", vars={"scores": "list Z", "plate_ids": "list Z"},
+    prims=[
+        ("np.concatenate((__a, __b))", "{a} ++ {b}", "list Z", {"a": "list Z", "b": "list Z"}),
+        ("len(__a)", "Z.of_nat (length {a})", "Z"),
+        ("self", "(scores', plate_ids', current_index')", "(list Z * list Z * Z)"),     # `return self`: its state at that point
+    ],
+)
+
+C06_MIN_SCORE = dict(
+    file="src/batchie/scoring/main.py", cls="ChunkedScoresHolder", func="plate_id_with_minimum_score",
+    out="SrcScoring.v", imports="Model.Scores", name="src_plate_id_with_minimum_score",
+    pyparams=["self", "eligible_plate_ids"], attr_vars=_HOLDER_ATTRS,
+    params=[("scores", "list Z"), ("plate_ids", "list Z"), ("eligible_plate_ids", "opt list Z")],
+    returns="Z", vars={"mask": "list bool"},
+    prims=[
+        ("__a[__i].item()", "!array_item {a} {i}", "Z", {"a": "list Z", "i": "Z"}),
+        ("__a.argmin()", "!argmin_index {a}", "Z", {"a": "list Z"}),       # numpy: first minimum, ValueError on empty
+        ("np.isin(__a, __l)", "isin {a} {l}", "list bool", {"a": "list Z", "l": "list Z"}),
+        ("__a[__m]", "!mask_select {a} {m}", "list Z", {"a": "list Z", "m": "list bool"}),
+    ],
+)
+
+C06_CONCAT = dict(
+    file="src/batchie/scoring/main.py", cls="ChunkedScoresHolder", func="concat",
+    out="SrcScoring.v", imports="Model.Scores", name="src_concat",
+    pyparams=["cls", "scores_list"], params=[("scores_list", "list holder")],
+    returns="holder", vars={"current": "holder", "scores": "holder"},
+    prims=[
+        ("__l[0]", "!list_head {l}", "holder", {"l": "list holder"}),
+        ("__l[1:]", "tl {l}", "list holder", {"l": "list holder"}),
+        ("__a.combine(__b)", "h_combine {a} {b}", "holder", {"a": "holder", "b": "holder"}),   # linked by C06_COMBINE
+    ],
+    raises=[("Must provide at least one ChunkedScoresHolder", 5)],
+)
+
 # C11 / C13: the wrappers of every retrospective generator / smoother (core.py).  `f` is the abstract method
 # (self._generate_plates / self._smooth_plates): ANY function of the screen and the unread recorded answers `ds`.
 _C11_WRAP = dict(
@@ -184,5 +477,8 @@ C13_MERGETB = dict(
     ignore=["logger.info(__a)"],
 )
 
-ALL = [C16_FILTER, C17_SAMPLE, C11_GENERATE_PLATES, C11_SMOOTH_PLATES, C13_MERGEMIN_SAMPLE_ID, C13_MERGEMIN, C11_BALANCED_HOLDOUT,
+ALL = [C16_FILTER, C17_SAMPLE,
+       C10_INIT, C10_N_THETAS, C10_GET, C10_ADD, C10_IS_COMPLETE, C10_COMBINE, C10_CONCAT, C10_LOAD, C10_SAVE,
+       C06_SELECT, C06_SCORE_CHUNK, C16_SELECT, C06_ADD_SCORE, C06_COMBINE, C06_MIN_SCORE, C06_CONCAT,
+       C11_GENERATE_PLATES, C11_SMOOTH_PLATES, C13_MERGEMIN_SAMPLE_ID, C13_MERGEMIN, C11_BALANCED_HOLDOUT,
        C13_MERGETB_SAMPLE_ID, C13_MERGETB]
